@@ -432,11 +432,11 @@ theorem loadAll_spec (contents : List (List (Line κ β))) (hr : ∀ c ∈ conte
       ∀ (f : Nat) (c : List (Line κ β)), contents[f]? = some c →
         ∃ T ls, loaded[f]? = some (FP.ofTables c T, ls) ∧ load (fun x => x) (fun x => x) c = .ok (T, ls) := by
   induction contents with
-  | nil => exact ⟨[], rfl, rfl, by simp⟩
+  | nil => exact ⟨[], by simp [loadAll, loadAllWith], rfl, by simp⟩
   | cons c cs ih =>
     obtain ⟨rest, h1, h2, h3⟩ := ih (fun x hx => hr x (by simp [hx]))
     obtain ⟨_, _, T, ls, hl⟩ := c07_ids_consecutive benchOf (hr c (by simp))
-    refine ⟨(FP.ofTables c T, ls) :: rest, by simp [loadAll, hl, h1], by simp [h2], ?_⟩
+    refine ⟨(FP.ofTables c T, ls) :: rest, by (unfold loadAll at h1 ⊢; simp [loadAllWith, hl, h1]), by simp [h2], ?_⟩
     intro f c' hf
     cases f with
     | zero => simp at hf; subst hf; exact ⟨T, ls, by simp, hl⟩
@@ -583,7 +583,7 @@ theorem session_between (cfg : List (RunC κ)) (H : Harness) (nfiles : Nat) (hcf
     (fun c hc => by obtain ⟨f, hf⟩ := List.getElem?_of_mem hc; exact hB.reach f c hf)
   have hm0 : ∀ (i : Nat) (c : RunC κ), cfg[i]? = some c → (initRun c (loaded.map (·.2))).m = m i :=
     restored_progress benchOf cfg H nfiles hcfg hH contents m hB loaded hlen hl
-  unfold session
+  unfold session sessionWith
   simp only [hload]
   generalize hruns0 : cfg.map (fun c => initRun c (loaded.map (·.2))) = runs0
   generalize htasks : List.filter _ order = tasks
